@@ -6,6 +6,7 @@ from vsa.facts import Facts, unwrap, show, walk, lit_value
 from vsa.front import AnalysisBroken
 from vsa.alg import Fold, S, F as Fn, is_zero, guard_strs, vec_atoms
 from vsa.cfg import CFG
+from vsa.cases import decide, executes, resolve_ite, ites, decision_table
 
 LEVEL = "proof"
 X = "votca::xtp::"
@@ -41,9 +42,10 @@ def run(rep, tier):
     fo = Fold(ie).run()
     st = [e for e in fo.events if e["kind"] == "store" and e["target"] == "escape_rate_"]
     final = fo.exit_env().get(("field", "escape_rate_"))
-    ok = final is not None and str(getattr(final, "func", "")).startswith("SUM_") and re.match(r"^getRate\(event@L\d+\)$", str(final.args[0])) is not None
-    loops = [n for n in ie.walk() if n.get("k") == "rangefor"]
-    ok = ok and len(loops) == 1 and nows(show(loops[0]["range"])) == "events_"
+    ok = final is not None and str(getattr(final, "func", "")).startswith("SUM_")
+    if ok:
+        lp = [l for l in getattr(fo, "loops", []) if "SUM_" + str(l["lid"]) == str(final.func)]
+        ok = len(lp) == 1 and lp[0]["var"] is not None and str(lp[0]["range"]) == "events_" and final.args[0] == Fn("getRate")(lp[0]["var"])
     rep.check(ok, "R14.1", "escape-rate", "escape_rate_ = 0 + SUM getRate(event) over events_", "GNode::InitEscapeRate computes %s" % final, ie.loc(), sample=True)
 
     # ---------------------------------------------------------------- R14.2
@@ -147,21 +149,34 @@ def run(rep, tier):
     rep.check(ok, "R14.3", "zero-reorg-throws", "|reorg| < 1e-12 -> throw", "near-zero reorganisation energies do not throw (guards: %s)" % [t[:120] for t in thr], rt.loc())
     ae = F.one(X + "GNode::AddEventfromQmPair")
     rep.analysed(ae)
-    drs = {}
-    for n in ae.walk():
-        if n.get("k") == "opcall" and n.get("op") == "=" and nows(show(n["args"][0])) == "dr":
-            conds = [a for a in ae.ancestors(n) if a.get("k") == "if"]
-            in_then = conds and any(x.get("id") == n["id"] for x in walk(conds[0]["then"]))
-            drs["seg1" if in_then else "seg2"] = nows(show(n["args"][1]))
-    dest = {}
-    for n in ae.walk():
-        if n.get("k") == "assign" and n["op"] == "=" and nows(show(n["lhs"])) == "destination":
-            conds = [a for a in ae.ancestors(n) if a.get("k") == "if"]
-            in_then = conds and any(x.get("id") == n["id"] for x in walk(conds[0]["then"]))
-            dest["seg1" if in_then else "seg2"] = nows(show(n["rhs"]))
-    cond = [nows(show(n["cond"])) for n in ae.walk() if n.get("k") == "if"]
-    ok = cond == ["(id_==pair.Seg1()->getId())"] and drs == {"seg1": "pair.R()", "seg2": "-pair.R()"} and dest == {"seg1": "pair.Seg2()->getId()", "seg2": "pair.Seg1()->getId()"}
-    rep.check(ok, "R14.3", "reverse-event", "events from seg1 go to seg2 with +R, from seg2 to seg1 with -R", "AddEventfromQmPair: cond %s, dr %s, destination %s" % (cond, drs, dest), ae.loc(), sample=True)
+    fae = Fold(ae, record_calls=r"GNode::AddEvent$").run()
+    evs = [e for e in fae.events if e["kind"] == "call"]
+    pn = ae.j["params"][0]["name"]
+    id1, id2 = "getId(Seg1(%s))" % pn, "getId(Seg2(%s))" % pn
+    Rv = vec_atoms("R(%s)" % pn)
+    conds_e = getattr(fae, "conds", {})
+
+    def from_oracle(lf):
+        if isinstance(lf, tuple) and len(lf) == 3 and lf[0] in ("==", "!=") and "id_" in (str(lf[1]), str(lf[2])):
+            other = str(lf[2]) if str(lf[1]) == "id_" else str(lf[1])
+            if other == id1:
+                return ("FROM1", lf[0] == "==")
+            if other == id2:
+                return ("FROM1", lf[0] != "==")
+        return None
+    ok, why = len(evs) == 1 and not evs[0]["guards"] and len(evs[0]["args"]) == 3, "expected one unconditional AddEvent(&nodes[destination], dr, rate), found %d" % len(evs)
+    if ok:
+        dest, dr, rt = evs[0]["args"]
+        for from1 in (True, False):
+            pick = lambda cs: decide(conds_e[cs], None, {"FROM1": from1}, from_oracle, conds_e) if cs in conds_e else None
+            d_ = resolve_ite(dest[1], pick) if isinstance(dest, tuple) and len(dest) == 2 and dest[0] == "&" and hasattr(dest[1], "args") else dest
+            v_ = sp.Matrix([resolve_ite(x, pick) if hasattr(x, "args") else x for x in dr]) if isinstance(dr, sp.Matrix) else dr
+            want_d = id2 if from1 else id1
+            want_v = Rv if from1 else -Rv
+            if not (want_d in str(d_) and (id1 if from1 else id2) not in str(d_)) or not (isinstance(v_, sp.Matrix) and v_ == want_v) or str(rt) != ae.j["params"][2]["name"]:
+                ok, why = False, "for a hop starting at segment %d the event goes to %s with displacement %s" % (1 if from1 else 2, str(d_)[:80], str(list(v_))[:80] if isinstance(v_, sp.Matrix) else v_)
+                break
+    rep.check(ok, "R14.3", "reverse-event", "events from seg1 go to seg2 with +R, from seg2 to seg1 with -R", "AddEventfromQmPair: " + why, ae.loc(), sample=True)
 
     # ---------------------------------------------------------------- R14.4
     pt = F.one(X + "KMCCalculator::Promotetime")
@@ -187,25 +202,72 @@ def run(rep, tier):
     mk, fh, ad, mv = mk[0], fh[0], ad[0], mv[0]
     for f in (mk, fh, ad, mv):
         rep.analysed(f)
-    g = CFG(mk) if mk.j.get("cfg") else None
-    flags = [n for n in mk.walk() if n.get("k") == "assign" and n["op"] == "=" and nows(show(n["lhs"])).endswith(".isOnLastLevel")]
-    rep.floor("R14.5", len(flags), 2, "last-level flag sites")
-    for i, fl in enumerate(flags):
-        # both leaves assigned in the same compound statement
-        comp = next(a for a in mk.ancestors(fl) if a.get("k") == "compound")
-        txt = [nows(show(x["lhs"])) for x in walk(comp) if x.get("k") == "assign" and x["op"] == "="]
-        ok = any(t.endswith(".leftLeaf") for t in txt) and any(t.endswith(".rightLeaf") for t in txt)
-        rep.check(ok, "R14.5", "leaves-assigned#%d" % i, "last-level node gets both leaves", "makeTree marks a node as last level without assigning both leaves (a lookup can return a null/stale event)", mk.loc(fl), sample=True)
-    inner = {nows(show(n["lhs"])).split(".")[-1]: nows(show(n["rhs"])) for n in mk.walk() if n.get("k") == "assign" and n["op"] == "=" and
-             nows(show(n["lhs"])).split(".")[-1] in ("leftChild", "rightChild")}
-    probs = [nows(show(n["rhs"])) for n in mk.walk() if n.get("k") == "assign" and n["op"] == "=" and nows(show(n["lhs"])).endswith(".probability") and "h1" in show(n["rhs"])]
-    ok = inner == {"leftChild": "h1", "rightChild": "h2"} and probs == ["(h1->probability+h2->probability)"]
-    rep.check(ok, "R14.5", "inner-nodes", "inner node = h1 (left) + h2 (right), probability = sum", "makeTree builds inner nodes as %s with probability %s" % (inner, probs), mk.loc())
-    leafp = [nows(show(n["rhs"])) for n in mk.walk() if n.get("k") == "assign" and n["op"] == "=" and nows(show(n["lhs"])).endswith(".probability") and "getValue" in show(n["rhs"])]
-    ok = len(leafp) == 2 and all(p.endswith("/sum_of_values)") or p.endswith("/sum_of_values") for p in leafp) and "leftLeaf->getValue()+" in leafp[0] and "rightLeaf->getValue()" in leafp[0]
-    rep.check(ok, "R14.5", "leaf-probabilities", "last-level probability = (left + right)/sum (single leaf: value/sum)", "makeTree leaf-level probabilities are %s" % leafp, mk.loc(), sample=True)
-    fmk = Fold(mk).run()
+    MUT = r"priority_queue<.*>::(push|pop)$"
+    fmk = Fold(mk, mutators=MUT).run()
     sv = fmk.exit_env().get(("field", "sum_of_values"))
+    stores = [e for e in fmk.events if e["kind"] == "store"]
+
+    def gkey(e):
+        return (tuple(guard_strs(fmk, e["guards"])), tuple(sorted(str(x) for x in e.get("not", []))))
+
+    def sibling(e, suffix_from, suffix_to):
+        base = e["target"][:-len(suffix_from)]
+        return [x for x in stores if x["target"] == base + suffix_to and gkey(x) == gkey(e)]
+
+    def fname(v):
+        return str(getattr(v, "func", ""))
+
+    def two_smallest(x, y):
+        """x, y are the tops of one queue before and after one pop (either order)"""
+        for u, v in ((x, y), (y, x)):
+            if fname(u) == "top" and fname(v) == "top" and fname(v.args[0]) == "mut_pop" and v.args[0].args[0] == u.args[0]:
+                return True
+        return False
+    flags = [e for e in stores if e["target"].endswith(".isOnLastLevel") and e["value"] in (True, sp.true, 1)]
+    rep.floor("R14.5", len(flags), 2, "last-level flag sites")
+    leaf_ok, leaf_why, nleaf = True, "", 0
+    for i, fl in enumerate(flags):
+        L, R_ = sibling(fl, ".isOnLastLevel", ".leftLeaf"), sibling(fl, ".isOnLastLevel", ".rightLeaf")
+        ok = len(L) == 1 and len(R_) == 1 and fname(L[0]["value"]) == "top" and fname(R_[0]["value"]) == "top"
+        rep.check(ok, "R14.5", "leaves-assigned#%d" % i, "last-level node gets both leaves", "makeTree marks a node as last level without assigning both leaves from the event queue (a lookup can return a null/stale event)",
+                  mk.loc(fl["node"]), sample=True)
+        if not ok:
+            continue
+        lv, rv = L[0]["value"], R_[0]["value"]
+        P = sibling(fl, ".isOnLastLevel", ".probability")
+        if len(P) != 1 or sv is None or isinstance(P[0]["value"], (tuple, sp.Matrix)):
+            leaf_ok, leaf_why = False, "no probability stored for the last-level node flagged at line %s" % fl["node"].get("line")
+            continue
+        nleaf += 1
+        gv = lambda x: Fn("getValue")(x)
+        if lv == rv:
+            want = gv(lv) / sv
+        elif two_smallest(lv, rv):
+            want = (gv(lv) + gv(rv)) / sv
+        else:
+            leaf_ok, leaf_why = False, "the two leaves %s / %s are not the two smallest unassigned events" % (str(lv)[:60], str(rv)[:60])
+            continue
+        if sp.simplify(P[0]["value"] - want) != 0:
+            leaf_ok, leaf_why = False, "the last-level probability is %s, expected %s" % (str(P[0]["value"])[:160], str(want)[:160])
+    rep.check(leaf_ok and nleaf >= 2, "R14.5", "leaf-probabilities", "last-level probability = (left + right)/sum (single leaf: value/sum)", "makeTree: " + (leaf_why or "fewer than two last-level sites"), mk.loc(), sample=True)
+    lcs = [e for e in stores if e["target"].endswith(".leftChild")]
+    ok, why = len(lcs) == 1, "expected one store of .leftChild, found %d" % len(lcs)
+    if ok:
+        RC, P = sibling(lcs[0], ".leftChild", ".rightChild"), sibling(lcs[0], ".leftChild", ".probability")
+        ok, why = len(RC) == 1 and len(P) == 1, "right child or probability of the inner node not assigned with the left child"
+        if ok:
+            lc, rc = lcs[0]["value"], RC[0]["value"]
+            ok, why = two_smallest(lc, rc), "children are %s / %s, not the two nodes of smallest probability" % (str(lc)[:60], str(rc)[:60])
+        if ok:
+            from sympy.core.function import AppliedUndef
+            pr = {a_.args[0]: a_ for a_ in P[0]["value"].atoms(AppliedUndef) if fname(a_) == ".probability"} if hasattr(P[0]["value"], "atoms") else {}
+            ok = lc in pr and rc in pr and sp.simplify(P[0]["value"] - pr[lc] - pr[rc]) == 0
+            why = "inner probability is %s, not the sum of the two children" % str(P[0]["value"])[:160]
+        if ok:
+            lp = [l for l in fmk.loops if any(fname(v_) == "mut_push" and fname(v_.args[0]) == "mut_pop" and fname(v_.args[0].args[0]) == "mut_pop" and v_.args[0].args[0].args[0] == lc.args[0]
+                                               for v_ in (l.get("step") or {}).values() if hasattr(v_, "args"))]
+            ok, why = len(lp) == 1, "the combine loop does not replace the two popped nodes by their parent"
+    rep.check(ok, "R14.5", "inner-nodes", "inner node = the two smallest nodes, probability = their sum, parent pushed back", "makeTree: " + why, mk.loc(), sample=True)
     oks, whys = False, "sum_of_values is not assigned"
     if sv is not None and not isinstance(sv, (tuple, sp.Matrix)):
         sums = [a for a in sp.preorder_traversal(sv) if str(getattr(a, "func", "")).startswith("SUM_")]
@@ -215,24 +277,73 @@ def run(rep, tier):
                 "normalises with the sum of both builds and the selection intervals no longer have length rate/escape_rate" % sv) if stale else "the normaliser is %s, not the sum of all event values" % sv
     rep.check(oks, "R14.5", "normaliser", "sum_of_values = sum of the event values of this build (independent of any earlier build)", "makeTree: " + whys, mk.loc(), sample=True)
     # orientation: descent, leaf choice, probability shifting
-    desc = [n for n in fh.walk() if n.get("k") == "if" and "probability" in show(n["cond"])]
-    okd = len(desc) == 1 and nows(show(desc[0]["cond"])) == "(p>node->probability)" and "leftChild" in show(desc[0]["then"]["stmts"][0] if desc[0]["then"].get("k") == "compound" else desc[0]["then"]) \
-        and "rightChild" in show((desc[0]["else"]["stmts"][0] if desc[0]["else"].get("k") == "compound" else desc[0]["else"]))
-    rets = [n for n in fh.walk() if n.get("k") == "return"]
-    okl = any(nows(show(r["value"])) == "((p>node->probability)?node->leftLeaf:node->rightLeaf)" for r in rets)
-    rep.check(okd and okl, "R14.5", "orientation|lookup", "descent and leaf choice: p > threshold -> left", "findHoppingDestination orientation differs between descent (%s) and leaf choice (%s)" % (
-        show(desc[0]["cond"]) if desc else "?", [show(r["value"]) for r in rets][-1:]), fh.loc(), sample=True)
-    rec = [n for n in ad.walk() if n.get("k") == "mcall" and n.get("callee", "").endswith("addProbabilityFromRightSubtreeToLeftSubtree")]
-    args = {nows(show(r["args"][0])): nows(show(r["args"][1])) for r in rec}
-    oka = args == {"n->leftChild": "(add+n->rightChild->probability)", "n->rightChild": "add"}
-    rep.check(oka, "R14.5", "orientation|shift", "left subtree receives add + P(right), right subtree add", "addProbabilityFromRightSubtreeToLeftSubtree recursion is %s" % args, ad.loc(), sample=True)
-    mvt = {nows(show(n["lhs"] if n.get("k") == "assign" else n["args"][0])): nows(show(n["rhs"] if n.get("k") == "assign" else n["args"][1])) for n in mv.walk()
-           if n.get("k") == "assign" and "probability" in show(n["lhs"])}
-    okm = mvt.get("n->probability") in ("n->rightChild->probability", "(n->leftLeaf->getValue()/sum_of_values)") or any("rightChild->probability" in v for v in mvt.values())
-    lastlvl = [n for n in mv.walk() if n.get("k") == "assign" and n["op"] == "-=" and nows(show(n["lhs"])) == "n->probability"]
-    okm = okm and len(lastlvl) == 1 and nows(show(lastlvl[0]["rhs"])) == "(n->leftLeaf->getValue()/sum_of_values)"
+    ffh = Fold(fh).run()
+    cfh = getattr(ffh, "conds", {})
+    pp = fh.j["params"][0]["name"]
+
+    def above(lf):
+        if isinstance(lf, tuple) and len(lf) == 3 and lf[0] in (">", "<=", "<", ">="):
+            l_, r_ = str(lf[1]), str(lf[2])
+            if l_ == pp and r_.endswith("->probability"):
+                return {">": ("ABOVE", True), "<=": ("ABOVE", False)}.get(lf[0])
+            if r_ == pp and l_.endswith("->probability"):
+                return {"<": ("ABOVE", True), ">=": ("ABOVE", False)}.get(lf[0])
+        if str(lf) == "treeIsMade":
+            return ("MADE", True)
+        return None
+    okl, whyl = True, ""
+    desc = [l for l in getattr(ffh, "loops", []) if l.get("step")]
+    if len(desc) != 1:
+        okl, whyl = False, "expected one descent loop, found %d" % len(desc)
+    for up in (True, False):
+        if not okl:
+            break
+        A = {"ABOVE": up, "MADE": True}
+        pick = lambda cs: decide(cfh[cs], None, A, above, cfh) if cs in cfh else None
+        steps = [resolve_ite(v_, pick) if hasattr(v_, "args") else v_ for v_ in desc[0]["step"].values()]
+        steps = [str(v_) for v_ in steps if "Child" in str(v_)]
+        rv_ = []
+        for e in ffh.events:
+            if e["kind"] == "return" and e.get("value") is not None:
+                x = executes(e, None, A, above, cfh)
+                if x is None:
+                    okl, whyl = False, "cannot decide which leaf is returned for p %s threshold" % (">" if up else "<=")
+                elif x:
+                    v_ = e["value"]
+                    rv_.append(str(resolve_ite(v_, pick) if hasattr(v_, "args") else v_))
+        want_c, want_l = ("->leftChild", "->leftLeaf") if up else ("->rightChild", "->rightLeaf")
+        if okl and not (len(steps) == 1 and steps[0].endswith(want_c) and len(rv_) == 1 and rv_[0].endswith(want_l)):
+            okl, whyl = False, "for p %s threshold the descent goes to %s and the leaf returned is %s" % (">" if up else "<=", steps, rv_)
+    rep.check(okl, "R14.5", "orientation|lookup", "descent and leaf choice: p > threshold -> left", "findHoppingDestination: " + whyl, fh.loc(), sample=True)
+    fad = Fold(ad, record_calls=r"::addProbabilityFromRightSubtreeToLeftSubtree$").run()
+    np_, addp = ad.j["params"][0]["name"], S(ad.j["params"][1]["name"])
+    rec = [e for e in fad.events if e["kind"] == "call"]
+    args = {str(e["args"][-2]): e["args"][-1] for e in rec if len(e["args"]) >= 2}
+    oka = set(args) == {np_ + "->leftChild", np_ + "->rightChild"} and sp.simplify(args[np_ + "->rightChild"] - addp) == 0 and \
+        sp.simplify(args[np_ + "->leftChild"] - addp - S(np_ + "->rightChild->probability")) == 0
+    own = [e for e in fad.events if e["kind"] == "store" and e["target"] == np_ + "->probability" and not e["guards"] and not e.get("not")]
+    oka = oka and len(own) == 1 and sp.simplify(own[0]["value"] - addp - S(np_ + "->probability")) == 0
+    rep.check(oka, "R14.5", "orientation|shift", "every node gets add; left subtree receives add + P(right), right subtree add", "addProbabilityFromRightSubtreeToLeftSubtree recursion is %s" % {k_: str(v_) for k_, v_ in args.items()}, ad.loc(), sample=True)
+    fmv = Fold(mv, record_calls=r"::moveProbabilitiesFromRightSubtreesOneLevelUp$").run()
+    cmv = getattr(fmv, "conds", {})
+    nm_ = mv.j["params"][0]["name"]
+
+    def lastlevel(lf):
+        return ("LAST", True) if str(lf) == nm_ + "->isOnLastLevel" else None
+    okm, whym = True, ""
+    for last in (True, False):
+        A = {"LAST": last}
+        st_ = [e for e in fmv.events if e["kind"] == "store" and e["target"] == nm_ + "->probability" and executes(e, None, A, lastlevel, cmv)]
+        rc_ = sorted(str(e["args"][-1]) for e in fmv.events if e["kind"] == "call" and executes(e, None, A, lastlevel, cmv))
+        if last:
+            good = len(st_) == 1 and sp.simplify(st_[0]["value"] - (S(nm_ + "->probability") - Fn("getValue")(S(nm_ + "->leftLeaf")) / S("sum_of_values"))) == 0 and not rc_
+        else:
+            good = len(st_) == 1 and st_[0]["value"] == S(nm_ + "->rightChild->probability") and rc_ == [nm_ + "->leftChild", nm_ + "->rightChild"]
+        if not good:
+            okm, whym = False, "for a %s node it assigns %s and recurses into %s" % ("last-level" if last else "inner", [str(e["value"])[:80] for e in st_], rc_)
+            break
     rep.check(okm, "R14.5", "orientation|thresholds", "threshold of a node = cumulative probability of its right part (last level: minus the left leaf)",
-              "moveProbabilitiesFromRightSubtreesOneLevelUp assigns %s / last level %s" % (mvt, [show(x["rhs"]) for x in lastlvl]), mv.loc())
+              "moveProbabilitiesFromRightSubtreesOneLevelUp: " + whym, mv.loc(), sample=True)
     rep.assumptions += ["that the thresholds partition [0,1] proportionally to the rates is a property of the tree-construction dynamics (priority queue order): not decided",
                         "the sign convention of the field term: the code has dG = (E1-E2) + q R.F and k12/k21 = exp(dG/kT); R14.3 checks antisymmetry under exchange of the pair",
                         "uniformity of the random number generator (exponential waiting-time distribution)"]
